@@ -63,6 +63,14 @@ func (d *differ) archs(field string, got []dependency.Arch, want []mArch) {
 			d.bad(field, "element %d: got %+v want %s", i, got[i], want[i].Text)
 			return
 		}
+		// every element decodes as it would on its own, whatever its neighbours are
+		var solo struct {
+			A []dependency.Arch `control:"Architecture"`
+		}
+		if err := control.Unmarshal(&solo, strings.NewReader("Architecture: "+want[i].Text+"\n")); err == nil && len(solo.A) == 1 && solo.A[0] != got[i] {
+			d.bad(field, "element %d (%s) decodes to %+v inside the list %v but to %+v on its own", i, want[i].Text, got[i], archTexts(want), solo.A[0])
+			return
+		}
 	}
 }
 func (d *differ) dep(field string, got dependency.Dependency, want mDep) {
@@ -139,6 +147,15 @@ func c10DSC(r *rt.Run, failAt bool) {
 		m.BinStyle = oneLine
 	}
 	doc := m.render()
+	plain := doc
+	if !failAt && t.Bool(1, 5, "c10.clearsigned") {
+		// real .dsc files are clearsigned; with a nil keyring the armor is
+		// stripped and the fields must be the same
+		loadKeys()
+		doc = string(clearsignDoc(pgpKeys[0], []byte(doc)))
+		r.Probe("clearsigned-document")
+	}
+	_ = plain
 	via := "ParseDsc"
 	var got *control.DSC
 	var err error
@@ -233,6 +250,11 @@ func c10Changes(r *rt.Run, failAt bool) {
 	t := r.T
 	m := genChanges(t, "chg")
 	doc := m.render()
+	if !failAt && t.Bool(1, 5, "c10.clearsigned") {
+		loadKeys()
+		doc = string(clearsignDoc(pgpKeys[0], []byte(doc)))
+		r.Probe("clearsigned-document")
+	}
 	p := "/srv/incoming/" + m.Source + ".changes"
 	var got *control.Changes
 	var err error
@@ -579,5 +601,5 @@ func init() {
 		},
 		Assumptions: []string{"the .deb control file kind of this property is exercised by C14's check", "two-part architecture names are compared on OS and CPU only"},
 	})
-	propProbes["C10"] = []string{"several-document-kinds-in-one-run", "line-longer-than-4096-bytes", "caller-bufio-smaller-than-4096", "via-file-entry-point"}
+	propProbes["C10"] = []string{"clearsigned-document", "several-document-kinds-in-one-run", "line-longer-than-4096-bytes", "caller-bufio-smaller-than-4096", "via-file-entry-point"}
 }
